@@ -59,7 +59,8 @@ func (f *EnumValue) DeprecationReason() *string {
 
 	reason := f.deprecation.Arguments.ForName("reason")
 	if reason == nil {
-		return nil
+		defaultReason := "No longer supported"
+		return &defaultReason
 	}
 
 	return &reason.Value.Raw
@@ -102,7 +103,8 @@ func (f *InputValue) DeprecationReason() *string {
 
 	reason := f.deprecation.Arguments.ForName("reason")
 	if reason == nil {
-		return nil
+		defaultReason := "No longer supported"
+		return &defaultReason
 	}
 
 	return &reason.Value.Raw
